@@ -116,6 +116,16 @@ def all_graphs(N):
         yield (mask, "mixed"), _graph(mixed, [(mixed[b], mixed[a]) if (a + b) % 2 else (mixed[a], mixed[b]) for a, b in sel])
         tup = [(i // 2, i % 2) for i in range(N)]  # grid-style tuple labels
         yield (mask, "tuples"), _graph(tup, [(tup[a], tup[b]) for a, b in sel])
+        # the same graph as a MultiGraph (links carry keys), without and with a parallel copy of its first link
+        MG = nx.MultiGraph()
+        MG.add_nodes_from(names)
+        MG.add_edges_from([(names[a], names[b]) for a, b in sel])
+        yield (mask, "multigraph"), MG
+        if sel:
+            MG2 = nx.MultiGraph()
+            MG2.add_nodes_from(range(10, 10 + N))
+            MG2.add_edges_from([(10 + a, 10 + b) for a, b in sel] + [(10 + sel[0][1], 10 + sel[0][0])])
+            yield (mask, "multigraph-parallel"), MG2
         if 2 <= len(sel) <= 4:
             for k, perm in enumerate(itertools.permutations(sel)):
                 if k:
